@@ -149,6 +149,31 @@ func checkC12Query(r *Report, p *Prog) {
 				}
 				r.Check(bad == "", "C12.query", cons, p.InstrPos(in), "constants, existing query, QueryEscape/Encode results only", "the query string contains a "+bad+": URL metacharacters in it inject or truncate parameters")
 			case *ssa.Call:
+				// b.WriteString("&RelayState="); b.WriteString(url.QueryEscape(relayState)) on a text builder
+				if sc := x.Call.StaticCallee(); sc != nil && sc.Name() == "WriteString" && len(x.Call.Args) == 2 {
+					if s, ok := constStr(x.Call.Args[1]); ok && s == "&RelayState=" {
+						cons := fmt.Sprintf("%s: RelayState parameter appended", p.FnName(in.Parent()))
+						okG := relayGuardOnly(xfc, a, b, rsAP)
+						okV := false
+						seen := false
+						for _, nx := range b.Instrs {
+							if nx == in {
+								seen = true
+								continue
+							}
+							if !seen {
+								continue
+							}
+							if w, ok := nx.(*ssa.Call); ok && w.Call.StaticCallee() != nil && w.Call.StaticCallee().Name() == "WriteString" && len(w.Call.Args) == 2 && w.Call.Args[0] == x.Call.Args[0] {
+								if c, ok := w.Call.Args[1].(*ssa.Call); ok && calleeIs(c, "net/url.QueryEscape") && isRS(RV{V: c.Call.Args[0], C: xi.C}) {
+									okV = true
+								}
+								break
+							}
+						}
+						r.Check(okV && okG == "", "C12.relay-guard", cons, p.InstrPos(in), "QueryEscape(relayState), guarded only by != \"\"", relayWhy(okV, okG, "the value following &RelayState="))
+					}
+				}
 				// query.Set("RelayState", x)
 				if calleeIs(x, "(net/url.Values).Set") {
 					if k, ok := constStr(x.Call.Args[1]); ok && k == "RelayState" {
@@ -159,6 +184,28 @@ func checkC12Query(r *Report, p *Prog) {
 						okG := relayGuardOnly(xfc, a, b, rsAP)
 						r.Check(okV && okG == "", "C12.relay-guard", cons, p.InstrPos(in), "the caller's relay state, guarded only by != \"\"", relayWhy(okV, okG, xfc.AP(val)))
 					}
+				}
+			case *ssa.MapUpdate:
+				// query["RelayState"] = []string{x}: what Values.Set does
+				if k, ok := constStr(x.Key); ok && k == "RelayState" && types.TypeString(x.Map.Type(), nil) == "net/url.Values" {
+					emitted++
+					cons := fmt.Sprintf("%s: RelayState parameter set", p.FnName(in.Parent()))
+					okV := false
+					var val ssa.Value
+					if sl, ok := x.Value.(*ssa.Slice); ok {
+						if al, ok := sl.X.(*ssa.Alloc); ok {
+							if el := arrayLiteralElems(al); len(el) == 1 {
+								val = el[0]
+								okV = isRS(RV{V: val, C: xi.C})
+							}
+						}
+					}
+					okG := relayGuardOnly(xfc, a, b, rsAP)
+					vap := "?"
+					if val != nil {
+						vap = xfc.AP(val)
+					}
+					r.Check(okV && okG == "", "C12.relay-guard", cons, p.InstrPos(in), "the caller's relay state, guarded only by != \"\"", relayWhy(okV, okG, vap))
 				}
 			case *ssa.BinOp:
 				if x.Op == token.ADD {
@@ -1087,7 +1134,18 @@ func ownedBytes(p *Prog, fn *ssa.Function, depth int) (bool, string) {
 		}
 		sc := c.Call.StaticCallee()
 		if sc.String() == "(*bytes.Buffer).Bytes" {
-			if _, isAlloc := rootOfAddr(c.Call.Args[0]).(*ssa.Alloc); !isAlloc {
+			root := rootOfAddr(c.Call.Args[0])
+			_, isAlloc := root.(*ssa.Alloc)
+			if nb, isCall := root.(*ssa.Call); isCall && !isAlloc {
+				// bytes.NewBuffer(nil) / bytes.NewBufferString("") / new(bytes.Buffer): a fresh buffer of this call
+				if calleeIs(nb, "bytes.NewBuffer") && len(nb.Call.Args) == 1 && isNilConst(nb.Call.Args[0]) {
+					isAlloc = true
+				}
+				if calleeIs(nb, "bytes.NewBufferString") && len(nb.Call.Args) == 1 && isEmptyStringConst(nb.Call.Args[0]) {
+					isAlloc = true
+				}
+			}
+			if !isAlloc {
 				return false, "the returned slice aliases a buffer that is not local to the call (a pooled or shared buffer is overwritten by the next message)"
 			}
 			continue
